@@ -179,3 +179,57 @@ Proof.
       reflexivity.
     + rewrite Hc2. exact Hvt.
 Qed.
+
+(* C13 through the whole pipeline, without a heading: a line written with every character escaped comes out as exactly those characters *)
+Theorem escaped_hier_element_converts_nh uri prefix kw n t k b root_meta att_meta :
+  assoc_str uri meta_templates = Some (root_meta, att_meta) ->
+  In kw hier_keywords ->
+  num_ok n -> Forall (fun c => c <> TAB) n -> py_isspace (last n 0) = false -> clean_num n <> [] -> valid_text n = true ->
+  escapable t -> (1 <= k)%nat ->
+  let tag := hier_name kw in
+  let cand := candidate prefix tag (clean_num n) in
+  convert uri (of_string "hier_element") prefix (kw ++ 32 :: n ++ NL :: repeat NL b ++ repeat SP k ++ esc t ++ [NL])
+  = OkR (hier_x_nh tag [(EID, cand)] [(EID, cand ++ DUSCORE ++ P1)] n t).
+Proof.
+  intros Hm Hkw Hn Hnt Hnl Hcn Hvn Ht Hk tag cand.
+  destruct (escaped_written t Ht) as (Wt & Eet & Edt).
+  pose proof (hier_element_converts_nh uri prefix kw n (map Esc t) k b root_meta att_meta Hm Hkw Hn Hnt Hnl Hcn Hvn Wt) as H.
+  rewrite Eet, Edt in H. destruct Ht as (Htne & _). destruct t as [|t0 tr]; [contradiction|].
+  change (esc (t0 :: tr)) with (PegEscape.BS :: t0 :: esc tr) in *. apply H; try assumption; try reflexivity.
+Qed.
+
+(* C12: layout noise at document level - the number of blank lines after the keyword line and the width of the indentation do not
+   change the document (with and without heading) *)
+Theorem hier_element_layout_irrelevant uri prefix kw n uh ut k1 b1 k2 b2 root_meta att_meta :
+  assoc_str uri meta_templates = Some (root_meta, att_meta) ->
+  In kw hier_keywords ->
+  num_ok n -> Forall (fun c => c <> TAB) n -> clean_num n <> [] -> valid_text n = true ->
+  written_text uh -> written_text ut ->
+  let L := encode ut ++ NL :: 15 :: [NL] in
+  none_starts block_lits L = true -> p_safe L = true -> starts_with SUBH L = false -> no_ctl_start (encode ut) = true ->
+  (1 <= k1)%nat -> (1 <= k2)%nat ->
+  convert uri (of_string "hier_element") prefix (kw ++ 32 :: n ++ 32 :: 45 :: 32 :: encode uh ++ NL :: repeat NL b1 ++ repeat SP k1 ++ encode ut ++ [NL])
+  = convert uri (of_string "hier_element") prefix (kw ++ 32 :: n ++ 32 :: 45 :: 32 :: encode uh ++ NL :: repeat NL b2 ++ repeat SP k2 ++ encode ut ++ [NL]).
+Proof.
+  intros Hm Hkw Hn Hnt Hcn Hvn Wh Wt L HbL HpL HsL Hctl Hk1 Hk2.
+  rewrite (hier_element_converts_units_b uri prefix kw n uh ut k1 b1 root_meta att_meta Hm Hkw Hn Hnt Hcn Hvn Wh Wt HbL HpL HsL Hctl Hk1).
+  rewrite (hier_element_converts_units_b uri prefix kw n uh ut k2 b2 root_meta att_meta Hm Hkw Hn Hnt Hcn Hvn Wh Wt HbL HpL HsL Hctl Hk2).
+  reflexivity.
+Qed.
+
+Theorem hier_element_layout_irrelevant_nh uri prefix kw n ut k1 b1 k2 b2 root_meta att_meta :
+  assoc_str uri meta_templates = Some (root_meta, att_meta) ->
+  In kw hier_keywords ->
+  num_ok n -> Forall (fun c => c <> TAB) n -> py_isspace (last n 0) = false -> clean_num n <> [] -> valid_text n = true ->
+  written_text ut ->
+  let L := encode ut ++ NL :: 15 :: [NL] in
+  none_starts block_lits L = true -> p_safe L = true -> starts_with SUBH L = false -> no_ctl_start (encode ut) = true ->
+  (1 <= k1)%nat -> (1 <= k2)%nat ->
+  convert uri (of_string "hier_element") prefix (kw ++ 32 :: n ++ NL :: repeat NL b1 ++ repeat SP k1 ++ encode ut ++ [NL])
+  = convert uri (of_string "hier_element") prefix (kw ++ 32 :: n ++ NL :: repeat NL b2 ++ repeat SP k2 ++ encode ut ++ [NL]).
+Proof.
+  intros Hm Hkw Hn Hnt Hnl Hcn Hvn Wt L HbL HpL HsL Hctl Hk1 Hk2.
+  rewrite (hier_element_converts_nh uri prefix kw n ut k1 b1 root_meta att_meta Hm Hkw Hn Hnt Hnl Hcn Hvn Wt HbL HpL HsL Hctl Hk1).
+  rewrite (hier_element_converts_nh uri prefix kw n ut k2 b2 root_meta att_meta Hm Hkw Hn Hnt Hnl Hcn Hvn Wt HbL HpL HsL Hctl Hk2).
+  reflexivity.
+Qed.
